@@ -640,6 +640,34 @@ theorem str_verbatim (s : Sheet) (h : Dense s.rows) (str : List Char) (c r : Nat
     | nil => simp
     | cons _ _ => simp
 
+/-- clause "SetSheetRow/SetSheetCol": the state after `setSheetCells` is the state after a prefix of the single
+typed writes element 0, 1, … at (c+i, r) resp. (c, r+i) — all of them when the call succeeds — so everything
+proved about single writes (`ops_refine_lww`, `frame`, `last_writer_wins`, `int_exact`, `str_verbatim`, …)
+applies element by element; an element that is rejected ends the loop and leaves the earlier ones written. -/
+theorem sheet_row_col_fold (byRow : Bool) (c r : Nat) : ∀ (vs : List Value) (i : Nat) (s : Sheet),
+    ∃ k, k ≤ vs.length ∧
+      (setSheetCells s byRow c r i vs).1 = run s ((seqOps byRow c r i vs).take k) ∧
+      ((setSheetCells s byRow c r i vs).2 = .ok → k = vs.length) := by
+  intro vs
+  induction vs with
+  | nil => intro i s; exact ⟨0, by simp, by simp [setSheetCells, seqOps, run], by simp⟩
+  | cons v vs ih =>
+    intro i s
+    unfold setSheetCells
+    by_cases hbad : (if byRow then c + i else c) > Facts.MaxColumns ∨ (if byRow then r else r + i) > Facts.TotalRows
+    · simp only [hbad, if_true]
+      exact ⟨0, by simp, by simp [run], by intro h; cases h⟩
+    · simp only [hbad, if_false]
+      by_cases hok : (step s (if byRow then v.op (c + i) r else v.op c (r + i))).2 = .ok
+      · simp only [hok, if_true]
+        obtain ⟨k, hk1, hk2, hk3⟩ := ih (i + 1) (step s (if byRow then v.op (c + i) r else v.op c (r + i))).1
+        refine ⟨k + 1, by simp; omega, ?_, ?_⟩
+        · rw [hk2]; simp [seqOps, run]
+        · intro h; have := hk3 h; simp; omega
+      · simp only [hok, if_false]
+        refine ⟨1, by simp, by simp [seqOps, run], ?_⟩
+        intro h; exact absurd h (by simpa using hok)
+
 /-! ## spellings -/
 
 /-- clause "cell names are case-insensitive": a spelling the decoder accepts, and the same spelling with
